@@ -168,7 +168,8 @@ func check(c Case) vk.Verdict {
 				weight := float64(w.end-now) / float64(exp)
 				loPrev := w.prevAdm
 				hiPrev := w.prevAll
-				if w.altAll > hiPrev {
+				if w.altAll > hiPrev && c.Store == "vk-nottl" {
+					// only a storage that keeps records beyond their TTL can still carry the hits of the window before the gap
 					hiPrev = w.altAll
 				}
 				rateFloor := math.Floor(float64(loPrev)*weight) + float64(w.adm+1)
